@@ -76,7 +76,7 @@ const midAlphabet = "ABCDEFGHIJKLMNOPQRSTUVWXYZ0123456789"
 // GenMID returns a MID of 1..12 alphanumerics, unique for (prefix,i).
 func GenMID(r *rand.Rand, prefix string, i int) string {
 	n := 1 + r.Intn(12)
-	base := fmt.Sprintf("%s%d", prefix, i)
+	base := fmt.Sprintf("%s%dX", prefix, i) // the non-digit after the index keeps (prefix,i) -> MID injective
 	if n < len(base) {
 		n = len(base)
 	}
